@@ -155,7 +155,9 @@ def fillTagWeights (cfg : Cfg) : List (List α × PWT) → Nat → List (List (L
 def buildBoundaryTag (cfg : Cfg) (window nTagModels : Nat) (entries : List (List α × PWT)) : Res (PmaScorer α) :=
   let merged := Merge.mergeEntries PWT.add PWT.empty entries
   let pats := merged.map Prod.fst
-  let table := List.replicate nTagModels (List.replicate (window + 1) ([] : List (Nat × WV)))
+  -- (fix F-C11b) the table covers the largest relative position in the model, at least `window + 1` rows
+  let nRel := entries.foldl (fun acc e => e.2.tagInfo.foldl (fun a kv => max a (kv.1.2 + 1)) acc) (window + 1)
+  let table := List.replicate nTagModels (List.replicate nRel ([] : List (Nat × WV)))
   match fillTagWeights cfg merged 0 table with
   | .ok tw =>
     if pmaBuildOk pats then
@@ -175,7 +177,9 @@ def addAll {W : Type} (add : W → W → W) (es : List (List α × W)) (init : L
 /-- `CharScorer::new` -/
 def charScorerNew (cfg : Cfg) (m : WModel) (tagNgrams : List (List (TagNgramData Char))) : Res (Option (PmaScorer Char)) :=
   let noTagNgrams := !cfg.tagPred || tagNgrams.all (·.isEmpty)
-  if (m.charNgrams.isEmpty && m.dict.isEmpty && noTagNgrams) || m.charW = 0 then .ok none
+  -- (fix) a window size of 0 disables the boundary n-grams only
+  let m : WModel := if m.charW = 0 then { m with charNgrams := [] } else m
+  if m.charNgrams.isEmpty && m.dict.isEmpty && noTagNgrams then .ok none
   else if m.dict.any (fun d => 32767 < d.word.length) then .err .invalidModel
   else
     let off : Int := -(m.charW : Int)
@@ -192,7 +196,9 @@ def charScorerNew (cfg : Cfg) (m : WModel) (tagNgrams : List (List (TagNgramData
 /-- `TypeScorer::new` -/
 def typeScorerNew (cfg : Cfg) (m : WModel) (tagNgrams : List (List (TagNgramData Nat))) : Res (Option TypeScorer) :=
   let noTagNgrams := !cfg.tagPred || tagNgrams.all (·.isEmpty)
-  if (m.typeNgrams.isEmpty && noTagNgrams) || m.typeW = 0 then .ok none
+  -- (fix) a window size of 0 disables the boundary n-grams only
+  let m : WModel := if m.typeW = 0 then { m with typeNgrams := [] } else m
+  if m.typeNgrams.isEmpty && noTagNgrams then .ok none
   else
     let off : Int := -(m.typeW : Int)
     if cfg.tagPred && !tagNgrams.isEmpty then
